@@ -59,7 +59,7 @@ class Query:
     in_u32() are symbolic.  witnesses: names of WITNESS_AT points that must be reachable (twin run)."""
 
     def __init__(self, name, defs=(), witnesses=(), unwind=2, timeout=900, est_gb=3, hardcap=40,
-                 extra_cbmc=(), sample=None):
+                 extra_cbmc=(), sample=None, profile=None):
         self.name = name
         self.defs = list(defs)
         self.witnesses = list(witnesses)
@@ -69,12 +69,13 @@ class Query:
         self.hardcap = hardcap
         self.extra_cbmc = list(extra_cbmc)
         self.sample = sample
+        self.profile = profile      # concrete VIN vectors of this shape: per-loop bounds are learnt from them (then checked)
 
 
 class Unit:
     def __init__(self, name, harness_cpp, main_c, repo_srcs=(), caps=None, cxx_defs=(), queries=(),
                  corpus=(), wrap=(), model_srcs=(), extra_clang=(), native_cxx=(), hints=None,
-                 private_public=False, native_link=()):
+                 private_public=False, native_link=(), inc=(), leak_on_unwind=False):
         self.name = name
         self.harness_cpp = harness_cpp      # path relative to /verif
         self.main_c = main_c                # path relative to /verif
@@ -90,6 +91,8 @@ class Unit:
         self.hints = hints                  # path (relative to /verif) of committed unwind hints
         self.private_public = private_public
         self.native_link = list(native_link)
+        self.leak_on_unwind = leak_on_unwind
+        self.inc = [x for d_ in inc for x in ('-I', os.path.join(VERIF, d_))]
         self.dir = None
         self.functions = []
 
@@ -100,7 +103,7 @@ def build_model(u, work):
     os.makedirs(d, exist_ok=True)
     u.dir = d
     flags = CLANG_FLAGS + ['-I', VSTD, '-I', os.path.join(REPO, 'include'), '-I', TOOLS, '-DNITRO_VERIF'] + \
-        caps_defs(u.caps) + u.cxx_defs + u.extra_clang
+        caps_defs(u.caps) + u.cxx_defs + u.extra_clang + u.inc
     srcs = [os.path.join(REPO, s) for s in u.repo_srcs] + [os.path.join(VSTD, 'vstd_rt.cpp')] + \
         [os.path.join(VERIF, s) for s in u.model_srcs] + [os.path.join(VERIF, u.harness_cpp)]
     lls = []
@@ -117,8 +120,8 @@ def build_model(u, work):
         lls = list(ex.map(one, enumerate(srcs)))
     allll = os.path.join(d, 'all.ll')
     sh(['llvm-link-14', '-S'] + lls + ['-o', allll])
-    p = sh([sys.executable, os.path.join(TOOLS, 'ir2c.py'), allll, os.path.join(d, 'all.c'), os.path.join(d, 'all.h')],
-           check=False)
+    p = sh([sys.executable, os.path.join(TOOLS, 'ir2c.py'), allll, os.path.join(d, 'all.c'), os.path.join(d, 'all.h')] +
+           (['--leak-on-unwind'] if u.leak_on_unwind else []), check=False)
     if p.returncode != 0:
         raise Inconclusive('ir2c: ' + p.stdout[-2000:])
     u.functions = encoded_functions(allll)
@@ -191,7 +194,7 @@ def build_native(u, d, kind, main_defs, tag):
                 def one(i_src):
                     i, src = i_src
                     fl = ['-std=c++17', '-O1', '-g', '-w', '-I', os.path.join(REPO, 'include'), '-I', TOOLS] + san + \
-                        u.cxx_defs_native() + u.native_cxx
+                        u.cxx_defs_native() + u.native_cxx + u.inc
                     if src.endswith(os.path.basename(u.harness_cpp)) and u.private_public:
                         fl += ['-fno-access-control']
                     sh(['g++'] + fl + ['-c', src, '-o', os.path.join(objs, 'o%d.o' % i)])
@@ -200,7 +203,7 @@ def build_native(u, d, kind, main_defs, tag):
                 sh(['gcc', '-O1', '-g', '-w', '-I', TOOLS, '-c', os.path.join(TOOLS, 'native_shims.c'), '-o',
                     os.path.join(objs, 'shims.o')] + ['-DWRAP_%s' % w for w in u.wrap])
                 open(objs + '.done', 'w').write('ok')
-        sh(['gcc', '-O1', '-g', '-w', '-DNATIVE', '-DNATIVE_REAL', '-I', TOOLS, '-I', d] + main_defs + ['-c', main_c, '-o', mo])
+        sh(['gcc', '-O1', '-g', '-w', '-DNATIVE', '-DNATIVE_REAL', '-I', TOOLS, '-I', d] + u.inc + main_defs + ['-c', main_c, '-o', mo])
         wraps = ['-Wl,--wrap=%s' % w for w in u.wrap]
         sh(['g++'] + san + [mo] + [os.path.join(objs, f) for f in sorted(os.listdir(objs))] + wraps + u.native_link + ['-o', exe])
     else:
@@ -209,7 +212,7 @@ def build_native(u, d, kind, main_defs, tag):
             if not os.path.exists(ao):
                 sh(['gcc', '-O1', '-w', '-fno-strict-aliasing', '-fwrapv', '-I', TOOLS, '-c', os.path.join(d, 'all.c'), '-o', ao])
                 sh(['gcc', '-O1', '-w', '-I', TOOLS, '-c', os.path.join(TOOLS, 'ir2c_rt.c'), '-o', os.path.join(d, 'rt_model.o')])
-        sh(['gcc', '-O1', '-w', '-DNATIVE', '-DNATIVE_MODEL', '-I', TOOLS, '-I', d] + main_defs + ['-c', main_c, '-o', mo])
+        sh(['gcc', '-O1', '-w', '-DNATIVE', '-DNATIVE_MODEL', '-I', TOOLS, '-I', d] + u.inc + main_defs + ['-c', main_c, '-o', mo])
         sh(['gcc', mo, ao, os.path.join(d, 'rt_model.o'), '-o', exe])
     return exe
 
@@ -231,8 +234,9 @@ def _lock(key):
         return _locks[key]
 
 
-def run_native(exe, vin, timeout=20):
+def run_native(exe, vin, timeout=20, rtenv=None):
     env = dict(os.environ)
+    env.update(rtenv or {})
     env['VIN'] = ','.join(str(v) for v in vin)
     env['ASAN_OPTIONS'] = 'detect_leaks=1:abort_on_error=0:exitcode=66'
     env['UBSAN_OPTIONS'] = 'halt_on_error=1:exitcode=67'
@@ -263,7 +267,7 @@ RES_RE = re.compile(r'^\[([^\]]+)\] (.*): (SUCCESS|FAILURE)$')
 
 def run_cbmc(u, q, defs, unwindset, timeout, log, verbosity=None, extra=()):
     cmd = ['/usr/bin/time', '-f', 'RSSKB=%M', 'cbmc', os.path.join(u.dir, 'all.c'), os.path.join(TOOLS, 'ir2c_rt.c'),
-           os.path.join(VERIF, u.main_c), '-I', TOOLS, '-I', u.dir] + defs + CBMC_FLAGS + \
+           os.path.join(VERIF, u.main_c), '-I', TOOLS, '-I', u.dir] + u.inc + defs + CBMC_FLAGS + \
         ['--unwind', str(q.unwind)] + q.extra_cbmc + list(extra)
     if unwindset:
         cmd += ['--unwindset', ','.join('%s:%d' % kv for kv in sorted(unwindset.items()))]
@@ -370,35 +374,38 @@ def decide(u, q, defs, log_prefix, hints, note):
         for k in unw:
             lid = k.replace('.unwind.', '.')
             cur = unwindset.get(lid, q.unwind)
-            nxt = cur + (2 if cur < 8 else 4)
+            if re.match(r'(spec_|sp_|str_eq|res_same|main|inst|in_fill|ref_|oracle_)', lid):
+                nxt = max(cur + 4, 12)     # harness-side reference code: cheap, be generous at once
+            else:
+                nxt = cur + (3 if cur < 8 else 5)
             if nxt > q.hardcap:
                 capped.append(lid)
             unwindset[lid] = min(nxt, q.hardcap + 1)
         note.setdefault('bumped', {}).update({k.replace('.unwind.', '.'): unwindset[k.replace('.unwind.', '.')] for k in unw})
-        if capped or rounds > 8:
-            tr = r['traces'].get(unw[0], [])
-            return dict(base, status='unbounded', loops=capped or [u_.replace('.unwind.', '.') for u_ in unw],
-                        vin=tr, why='loop bound not converging below hard cap %d' % q.hardcap)
+        if capped:
+            tr = r['traces'].get([k for k in unw if k.replace('.unwind.', '.') in capped][0], [])
+            return dict(base, status='unbounded', loops=capped, vin=tr, why='loop bound not converging below hard cap %d' % q.hardcap)
+        if rounds > 10:
+            return dict(base, status='inconclusive', why='loop bounds still growing after %d rounds: %s' % (rounds, unw[:4]))
 
 
-def profile_unit(u, q, defs, vins, work, unwind=40):
+def profile_unit(u, q, defs, vins, work, unwind=40, workers=None):
     """developer tool: concrete runs with --verbosity 9 to learn per-loop trip counts"""
     tot = {}
 
     def one(iv):
         i, vin = iv
-        log = os.path.join(work, 'prof_%s_%d.log' % (q.name, i))
         qq = Query(q.name, unwind=unwind)
         d2 = defs + ['-DVIN_CONCRETE=%s' % ','.join(str(v) for v in (vin or [0]))]
         cmd = ['cbmc', os.path.join(u.dir, 'all.c'), os.path.join(TOOLS, 'ir2c_rt.c'), os.path.join(VERIF, u.main_c),
-               '-I', TOOLS, '-I', u.dir] + d2 + ['--object-bits', '12', '--no-malloc-may-fail', '--drop-unused-functions',
+               '-I', TOOLS, '-I', u.dir] + u.inc + d2 + ['--object-bits', '12', '--no-malloc-may-fail', '--drop-unused-functions',
                                                 '--no-standard-checks', '--unwind', str(unwind), '--verbosity', '9']
         p = subprocess.run(cmd, stdout=subprocess.PIPE, stderr=subprocess.STDOUT, text=True, errors='replace', timeout=600)
         m = {}
         for mm in re.finditer(r'Unwinding loop (\S+) iteration (\d+)', p.stdout):
             m[mm.group(1)] = max(m.get(mm.group(1), 0), int(mm.group(2)))
         return m, 'VERIFICATION' in p.stdout
-    with concurrent.futures.ThreadPoolExecutor(min(NCPU, 12)) as ex:
+    with concurrent.futures.ThreadPoolExecutor(workers or min(NCPU, 12)) as ex:
         for m, ok in ex.map(one, enumerate(vins)):
             if not ok:
                 print('  profile run gave no verdict', file=sys.stderr)
@@ -470,11 +477,11 @@ class Runner:
         # 2. differential corpus: model-native vs real-native
         jobs = []
         for u in self.units:
-            for defs, vin in u.corpus:
-                jobs.append((u, list(defs), list(vin)))
+            for ent in u.corpus:
+                jobs.append((u, list(ent[0]), list(ent[1]), dict(ent[2]) if len(ent) > 2 else {}))
         if jobs:
             def diff(job):
-                u, defs, vin = job
+                u, defs, vin, rtenv = job
                 tag = defs_tag(defs)
                 with _lock(u.name + tag):
                     er = os.path.join(u.dir, 'real_' + tag)
@@ -483,20 +490,20 @@ class Runner:
                         build_native(u, u.dir, 'real', defs, tag)
                     if not os.path.exists(em):
                         build_native(u, u.dir, 'model', defs, tag)
-                a = run_native(er, vin)
-                b = run_native(em, vin)
+                a = run_native(er, vin, rtenv=rtenv)
+                b = run_native(em, vin, rtenv=rtenv)
                 return job, a, b
             with concurrent.futures.ThreadPoolExecutor(NCPU) as ex:
-                for (u, defs, vin), a, b in ex.map(diff, jobs):
+                for (u, defs, vin, rtenv), a, b in ex.map(diff, jobs):
                     self.diff_runs += 1
                     if b[0] == 33:
-                        raise Inconclusive('corpus input exceeds model capacity (unit %s defs %s vin %s)' % (u.name, defs, vin))
+                        raise Inconclusive('corpus input exceeds model capacity (unit %s defs %s vin %s %s)' % (u.name, defs, vin, rtenv))
                     if a[0] not in (0, 10, 11) and a[0] != b[0]:
-                        raise Inconclusive('native run of corpus input failed rc=%d (unit %s defs %s vin %s): %s' % (
-                            a[0], u.name, defs, vin, a[2][-800:]))
+                        raise Inconclusive('native run of corpus input failed rc=%d (unit %s defs %s vin %s %s): %s' % (
+                            a[0], u.name, defs, vin, rtenv, a[2][-800:]))
                     if (a[0], a[1]) != (b[0], b[1]):
-                        raise Inconclusive('MODEL-DIVERGENCE on corpus input (unit %s defs %s vin %s):\n real rc=%d: %s\n model rc=%d: %s' % (
-                            u.name, defs, vin, a[0], a[1][-600:], b[0], b[1][-600:]))
+                        raise Inconclusive('MODEL-DIVERGENCE on corpus input (unit %s defs %s vin %s %s):\n real rc=%d: %s\n model rc=%d: %s' % (
+                            u.name, defs, vin, rtenv, a[0], a[1][-600:], b[0], b[1][-600:]))
             self.say('[%s] differential corpus: %d inputs, pipeline build == g++/libstdc++ build' % (self.prop, self.diff_runs))
         # 3. queries (+ witness twins)
         tasks = []
@@ -514,6 +521,12 @@ class Runner:
             note = {}
             defs = q.defs + kf_defs + (['-DWITNESS'] if wit else [])
             lp = os.path.join(u.dir, 'q_%s_%s' % (re.sub(r'\W', '_', q.name), 'w' if wit else 'm'))
+            if q.profile:
+                t0 = time.time()
+                tot = profile_unit(u, q, q.defs + kf_defs, q.profile, u.dir, workers=2)
+                hints = {k: v + 1 for k, v in tot.items() if v + 1 > q.unwind}
+                note['profile_runs'] = len(q.profile)
+                note['profile_s'] = round(time.time() - t0, 1)
             r = decide(u, q, defs, lp, hints, note)
             r['note'] = note
             return task, r
@@ -533,7 +546,7 @@ class Runner:
             u, q, r = d['m']
             rec = {'unit': u.name, 'query': q.name, 'defs': q.defs, 'status': r['status'], 'wall_s': r['wall'], 'rss_mb': r['rss_mb'],
                    'solver_s': r['solver_s'], 'sat_vars': r['vars'], 'sat_clauses': r['clauses'], 'ssa_steps': r['steps'], 'cbmc_properties': r['n_props'],
-                   'unwind_default': q.unwind, 'unwind_bumped': r['note'].get('bumped', {}), 'witnesses_required': q.witnesses,
+                   'unwind_default': q.unwind, 'unwind_bumped': r['note'].get('bumped', {}), 'loop_bound_profile_runs': r['note'].get('profile_runs', 0), 'witnesses_required': q.witnesses,
                    'witnesses_confirmed': []}
             if q.sample is not None:
                 rec['shape'] = q.sample
